@@ -21,7 +21,7 @@ ASSUMPTIONS = ['TT(None) (the documented empty placeholder) has no dense value a
 REQUIRED_REACH = ['_tt_base:TT.__init__', '_tt_base:TT.set_core', '_tt_base:TT.reduce_dims', '_tt_base:TT.__getitem__', '_tt_base:TT.round', '_extras:reshape', '_extras:permute',
                   '_dmrg:dmrg_matvec_python', '_dmrg:dmrg_hadamard_python', '_amen:_amen_mm_python', 'solvers:_amen_solve_python', '_division:amen_divide', 'interpolate:dmrg_cross',
                   'interpolate:function_interpolate', 'manifold:riemannian_projection', '_tt_base:TT.to_qtt', '_tt_base:TT.qtt_to_tens', '_extras:cat', '_extras:pad']
-REQUIRED_COUNTS = {'copy_then_inplace_histories': 100, 'wf_checks': 2000, 'quiescent_points': 1000, 'step_returned': 500, 'op:set_core': 5, 'op:reduce_dims': 5}
+REQUIRED_COUNTS = {'copy_then_inplace_histories': 100, 'argument_alias_histories': 50, 'wf_checks': 2000, 'quiescent_points': 1000, 'step_returned': 500, 'op:set_core': 5, 'op:reduce_dims': 5}
 MIN_NONTRIVIAL = {'quick': 200, 'thorough': 2000}
 CASE_TIMEOUT = {'quick': 240, 'thorough': 600}
 MAX_TIMEOUT_FRACTION = 0.02
@@ -45,6 +45,11 @@ def cases(tier, seed):
                 for ttm in (False, True):
                     for rep in range(2 if not T else 8):
                         cs.append({'gen': 'copyhist', 'copy': copy, 'inplace': inpl, 'target': target, 'ttm': ttm, 'dtype': ['f64', 'c128'][rep % 2], 'views': rep % 2 == 1})
+    # directed: argument objects shared between two constructor / factory calls, or modified by the caller afterwards
+    for form in ARGALIAS:
+        for second in ('same-args-second-object+set_core', 'caller-modifies-argument'):
+            for rep in range(3 if not T else 12):
+                cs.append({'gen': 'argalias', 'form': form, 'second': second, 'dtype': ['f64', 'c128', 'f32'][rep % 3]})
     if T:
         cheap = walk.CHEAP_OPS
         for a in cheap:
@@ -52,6 +57,86 @@ def cases(tier, seed):
                 for c in cheap:
                     cs.append({'gen': 'seq', 'ops': [a, b, c], 'dtype': 'f64'})
     return cs
+
+
+ARGALIAS = ['TT(dense,shape)', 'TT(numpy,shape)', 'TT(dense,ttm-shape)', 'TT(cores)', 'TT(ttm-cores)', 'ones(N)', 'zeros(N)', 'eye(N)', 'randn(N,R)', 'random(N,R)', 'ones(ttm-shape)', 'rank1TT(list)', 'meshgrid(list)',
+            'TT(dense,rmax-list)']
+
+
+def run_argalias(case, ctx, dt):
+    """Two objects are built from the SAME argument objects (shape list, core list, rank list ...), then one of them is resized in place by set_core; or one object
+    is built and the caller then writes into the list it passed.  Every object must keep describing its own cores (the WF monitor decides at each return)."""
+    import torchtt as tt
+    from ..ctx import Raised
+    w = walk.Walker(ctx, case['seed'], dt)
+    rng = w.rng
+    d = rng.randint(2, 3)
+    N = [rng.choice((2, 3)) for _ in range(d)]
+    M = [rng.choice((2, 3)) for _ in range(d)]
+    form = case['form']
+    g = w.g
+    if form == 'TT(dense,shape)':
+        A, arg = gens.values([dn.prod(N)], dt, 'gauss', g), list(N)
+        mk = lambda: tt.TT(A, arg, eps=1e-12)
+    elif form == 'TT(numpy,shape)':
+        A, arg = gens.values([dn.prod(N)], dt, 'gauss', g).numpy(), list(N)
+        mk = lambda: tt.TT(A, arg, eps=1e-12)
+    elif form == 'TT(dense,ttm-shape)':
+        A, arg = gens.values(M + N, dt, 'gauss', g), [(m, n) for m, n in zip(M, N)]
+        mk = lambda: tt.TT(A, arg, eps=1e-12)
+    elif form == 'TT(dense,rmax-list)':
+        A, arg = gens.values(N, dt, 'gauss', g), [1] + [2] * (d - 1) + [1]
+        mk = lambda: tt.TT(A, eps=1e-12, rmax=arg)
+    elif form in ('TT(cores)', 'TT(ttm-cores)'):
+        arg = gens.make_cores(N, [1] + [2] * (d - 1) + [1], dt, 'gauss', g, M=M if form == 'TT(ttm-cores)' else None)
+        mk = lambda: tt.TT(arg)
+    elif form in ('ones(N)', 'zeros(N)', 'eye(N)'):
+        arg = list(N)
+        f = {'ones(N)': tt.ones, 'zeros(N)': tt.zeros, 'eye(N)': tt.eye}[form]
+        mk = lambda: f(arg, dtype=dt)
+    elif form == 'ones(ttm-shape)':
+        arg = [(m, n) for m, n in zip(M, N)]
+        mk = lambda: tt.ones(arg, dtype=dt)
+    elif form in ('randn(N,R)', 'random(N,R)'):
+        arg, Rl = list(N), [1] + [2] * (d - 1) + [1]
+        f = tt.randn if form == 'randn(N,R)' else tt.random
+        mk = lambda: f(arg, Rl, dtype=dt)
+    elif form == 'rank1TT(list)':
+        arg = [gens.values([n], dt, 'gauss', g) for n in N]
+        mk = lambda: tt.rank1TT(arg)
+    else:
+        arg = [gens.values([n], dt, 'gauss', g) for n in N]
+        mk = lambda: tt.meshgrid(arg)
+    x = ctx.lib(form, mk)
+    if isinstance(x, (list, tuple)):
+        objs = [o for o in x if isinstance(o, tt.TT)]
+        x = objs[0] if objs else None
+    if not isinstance(x, tt.TT):
+        return
+    ctx.count('argument_alias_histories')
+    if case['second'].startswith('same-args'):
+        y = ctx.lib(form, mk)
+        if isinstance(y, (list, tuple)):
+            y = [o for o in y if isinstance(o, tt.TT)][-1]
+        if not isinstance(y, tt.TT):
+            return
+        k = rng.randrange(len(y.N))
+        sh = list(y.cores[k].shape)
+        sh[1] += 1
+        core = gens.values(sh, y.cores[k].dtype, 'gauss', g)
+        ctx.lib('set_core', lambda a: a.set_core(k, core), y, inplace=(y,))
+    else:
+        def scribble(lst):
+            if isinstance(lst, list) and lst:
+                lst[0] = (7, 7) if isinstance(lst[0], tuple) else (gens.values([1, 5, 1], dt, 'gauss', g) if hasattr(lst[0], 'shape') and lst[0].dim() == 3 else (9 if isinstance(lst[0], int) else lst[0]))
+                lst.append(lst[0])
+        ctx.lib('caller-writes-argument-list', lambda: scribble(arg))
+        if form in ('randn(N,R)', 'random(N,R)'):
+            ctx.lib('caller-writes-argument-list', lambda: scribble(Rl))
+    for o in [x]:
+        ctx.lib('full', lambda a: a.full(), o)
+        ctx.lib('TT.add', lambda a: a + a, o)
+    ctx.nontrivial(('argalias', form, case['second'], case['dtype']))
 
 
 COPIES = ['clone', 'detach', 'cpu', 'to', 'conj', 'neg', 'pos', 'round0', 't_or_slice', 'mul1']
@@ -101,6 +186,8 @@ def run_case(case, ctx):
     dt = dn.dtype_of(case['dtype'])
     if case['gen'] == 'copyhist':
         return run_copyhist(case, ctx, dt)
+    if case['gen'] == 'argalias':
+        return run_argalias(case, ctx, dt)
     if case['gen'] == 'walk':
         w = walk.Walker(ctx, case['seed'], dt, views=case.get('views', False))
         for _ in range(3):
